@@ -16,7 +16,9 @@
   * `C01_valid_reflected` speaks about the node as the annotation pass leaves it and the writer's
     attribute list for it; pass 3 (callback autodetection) afterwards may overwrite
     scope/closure/destroy/transfer/nullable of callback and user-data parameters
-    (`C01_closure_overridden_counterexample`).
+    (`C01_closure_overridden_counterexample`, `C01_destroy_overridden_counterexample`,
+    `C01_scope_overridden_counterexample`); and the annotation step of ANOTHER parameter carrying
+    `(destroy p)` sets the scope of `p` (`C01_scope_overridden_by_destroy_reference_counterexample`).
 -/
 import GIVerif.Lemmas.ParamAnn
 import GIVerif.Spec.ParamAnn
@@ -530,6 +532,39 @@ theorem C01_closure_overridden_counterexample :
     let ps : List Node := [{ name := G "cb", ty := cbTy, closure := some (G "x") }, { name := G "data", ty := anyTy },
                           { name := G "x", ty := anyTy }]
     ((pass3Pair ps 0 none ps).map (·.closure)) = [some (G "data"), none, none] := by
+  decide
+
+def dnTy : Ty :=
+  .leaf none (some (G "GLib.DestroyNotify")) (.callback (G "GLib.DestroyNotify")) { ctype := some (G "GDestroyNotify") }
+
+/-- pass 3 overwrites an explicit `(destroy x)` with the LAST `GDestroyNotify` parameter that follows
+    (here `x` itself is a `GDestroyNotify`, and so is `notify`) -/
+theorem C01_destroy_overridden_counterexample :
+    let ps : List Node := [{ name := G "cb", ty := cbTy, destroy := some (G "x"), scope := some (G "notified") },
+                          { name := G "x", ty := dnTy }, { name := G "notify", ty := dnTy }]
+    ((pass3Pair ps 0 none ps).map (·.destroy)) = [some (G "notify"), none, none] := by
+  decide
+
+/-- pass 3 overwrites an explicit `(scope call)`: with `notified` when a `GDestroyNotify` follows the
+    callback, with `async` when the annotated parameter is itself a `GDestroyNotify` -/
+theorem C01_scope_overridden_counterexample :
+    (let ps : List Node := [{ name := G "cb", ty := cbTy, scope := some (G "call") }, { name := G "d", ty := dnTy }]
+     ((pass3Pair ps 0 none ps).map (fun p => (p.scope, p.destroy))) = [(some (G "notified"), some (G "d")), (none, none)])
+    ∧ ((pass3WellKnown [{ name := G "d", ty := dnTy, scope := some (G "call") }]).map (·.scope)) = [some (G "async")] := by
+  decide
+
+/-- `@data: (scope async)` then `@items: (destroy data)`: the annotation step of `items` sets the scope
+    of its destroy target unconditionally, so the explicit scope of `data` is lost — and only in this
+    parameter order: with `items` first, the step of `data` runs last and `async` stays -/
+theorem C01_scope_overridden_by_destroy_reference_counterexample :
+    (let c : Callable := { kind := .function, params := [{ name := G "data", ty := cbTy }, { name := G "items", ty := cbTy }] }
+     ((callbackStep c 0 (G "data") (some { scope := some [G "async"] })).toOption.bind fun r =>
+        (callbackStep r.1 1 (G "items") (some { destroy := some [G "data"] })).toOption.map
+          fun r' => r'.1.params.map (·.scope)) = some [some (G "notified"), some (G "notified")])
+    ∧ (let c : Callable := { kind := .function, params := [{ name := G "items", ty := cbTy }, { name := G "data", ty := cbTy }] }
+     ((callbackStep c 0 (G "items") (some { destroy := some [G "data"] })).toOption.bind fun r =>
+        (callbackStep r.1 1 (G "data") (some { scope := some [G "async"] })).toOption.map
+          fun r' => r'.1.params.map (·.scope)) = some [some (G "notified"), some (G "async")]) := by
   decide
 
 /-- `(closure self)` on a method: the writer has no index for the instance parameter and raises -/
